@@ -7,9 +7,26 @@ from .. import impl
 BUILDERS = ("disjunctive", "agent_task", "agent_task_with_jobs", "complete_agent_task")
 
 
+def _pruned(build, which):
+    """Graph builder whose result had one node removed (public remove_node)
+    before being handed to an updater / environment."""
+
+    def f(inst):
+        graph = build(inst)
+        node = [n for n in graph.nodes if n.node_type.name == which][-1]
+        graph.remove_node(node.node_id)
+        return graph
+
+    return f
+
+
 def builder(name):
     from job_shop_lib import graphs as g
 
+    if name == "disjunctive_without_sink":
+        return _pruned(g.build_disjunctive_graph, "SINK")
+    if name == "agent_task_without_last_machine":
+        return _pruned(g.build_agent_task_graph, "MACHINE")
     return {
         "disjunctive": g.build_disjunctive_graph,
         "agent_task": g.build_agent_task_graph,
